@@ -1,8 +1,11 @@
 #!/usr/bin/env python3
-"""Regenerate MANIFEST.json from tools/manifest_checks.json (one entry per claimed property) + properties.jsonl."""
+"""Regenerate MANIFEST.json from tools/manifest.d/<id>.json (one file per claimed property) + properties.jsonl."""
 import json, os
 here = os.path.dirname(os.path.dirname(os.path.abspath(__file__)))
-claimed = json.load(open(os.path.join(here, "tools/manifest_checks.json")))
+claimed = {}
+for f in sorted(os.listdir(os.path.join(here, "tools/manifest.d"))):
+    if f.endswith(".json"):
+        claimed[f[:-5]] = json.load(open(os.path.join(here, "tools/manifest.d", f)))
 ids = [json.loads(l)["id"] for l in open(os.path.join(here, "properties.jsonl"))]
 checks, na = [], []
 for i in ids:
